@@ -199,7 +199,7 @@ def run(tier, V):
     step = 0x110000 // 64 + 1
     for lo in range(1, 0x110000, step):
         shards.append((exe, lo, min(lo + step, 0x110000)))
-    res = pmap(check_ucr_shard, shards)
+    res = pmap(check_ucr_shard, shards, procs=True)
     ncp = sum(r[0] for r in res)
     lens = set()
     for n, bad, sl in res:
@@ -215,7 +215,7 @@ def run(tier, V):
     strings = [''.join(t) for L in range(0, maxlen + 1) for t in itertools.product(ALPHA, repeat=L)]
     B = 400
     batches = [(exe, strings[i:i + B], False) for i in range(0, len(strings), B)]
-    res = pmap(check_ucs_batch, batches)
+    res = pmap(check_ucs_batch, batches, procs=True)
     nstr = sum(r[0] for r in res)
     nontriv = sum(r[1] for r in res)
     for _, _, bad in res:
@@ -227,7 +227,7 @@ def run(tier, V):
     pool = ALPHA + ['b', ' ', '́', 'ب', '中', '‌', '\U00010000', '\U0010FFFF', '\x7f', '\x01', '߿', 'ࠀ', '￿']
     longs = [''.join(R.choice(pool) for _ in range(R.randint(6, 60))) for _ in range(nlong)]
     batches = [(exe, longs[i:i + 100], False) for i in range(0, len(longs), 100)]
-    res = pmap(check_ucs_batch, batches)
+    res = pmap(check_ucs_batch, batches, procs=True)
     nstr += sum(r[0] for r in res)
     nontriv += sum(r[1] for r in res)
     for _, _, bad in res:
